@@ -14,7 +14,7 @@ def opUpload (args : List SExp) : Option OpResult := do
       else if fault = "early" then "closed http-412 0"
       else if fault = "early308" then "closed http-308 0"
       else if fault = "late300" then "closed http-300 0"
-      else if fault = "partial" || fault = "partial-json" || fault = "partial-bin" then "closed http-507 0"
+      else if fault = "partial" || fault = "partial-json" || fault = "partial-bin" || fault = "early-text-endless" || fault = "partial-text-endless" then "closed http-507 0"
       else "closed other 0"
     pure ⟨want, fun got =>
       if got = want then []
